@@ -548,6 +548,105 @@ def page_end_sweep(name, data):
     return out
 
 
+
+# ----------------------------------------------------------------------------- deep nestings in skipped fields
+
+NEST_KINDS = "LSKVF"
+NEST_TYPE = {"L": T_LIST, "S": T_SET, "K": T_MAP, "V": T_MAP, "F": T_STRUCT}
+
+
+def nest_field(kinds, fid):
+    """One struct field (long-form header, id `fid`, unknown to the parser) whose value is the chain of containers
+    `kinds` (outermost first; L list, S set, K map nested in the key, V map nested in the value, F struct) around one
+    byte: well-formed at every depth, so a parser without a depth bound recurses once per constructor."""
+    pre, suf = bytearray(), bytearray()
+    for i, k in enumerate(kinds):
+        t = NEST_TYPE[kinds[i + 1]] if i + 1 < len(kinds) else T_BYTE
+        if k in "LS":
+            pre.append(0x10 | t)
+        elif k == "K":
+            pre += bytes([0x01, (t << 4) | T_BYTE])
+            suf.append(0x00)
+        elif k == "V":
+            pre += bytes([0x01, (T_BYTE << 4) | t, 0x00])
+        else:
+            pre.append(0x10 | t)
+            suf.append(0x00)
+    return bytes([NEST_TYPE[kinds[0]]]) + pq.varint(pq.zz(fid)) + bytes(pre) + b"\x07" + bytes(reversed(suf))
+
+
+def first_struct(tree, route):
+    """Follow a route of field ids through a decoded tree (lists: first element) to a struct (field list)."""
+    cur = tree
+    for fid in route:
+        v = pq.get(cur, fid)
+        if v is None:
+            return None
+        if isinstance(v, tuple) and v[0] == "list":
+            if not v[2]:
+                return None
+            v = v[2][0]
+        cur = v
+    return cur
+
+
+FOOTER_SPOTS = {"FileMetaData": (), "SchemaElement": (2,), "RowGroup": (4,), "ColumnChunk": (4, 1), "ColumnMetaData": (4, 1, 3)}
+
+
+def nesting_sweep(name, data, tier):
+    """Deep container / struct nestings as unknown fields of the footer, of its sub-structs and of a page header."""
+    import copy
+    L = pq.layout(data)
+    out = []
+    chains = []
+    for k in NEST_KINDS:
+        for d in (31, 32, 33, 1000):
+            chains.append(k * d)
+    for a in NEST_KINDS:
+        for b in NEST_KINDS:
+            if a < b:
+                chains.append(((a + b) * 17)[:33])
+                chains.append(((b + a) * 600)[:1000])
+    for spot, route in FOOTER_SPOTS.items():
+        deep = [k * 200000 for k in (NEST_KINDS if tier == "thorough" or spot in ("FileMetaData", "ColumnMetaData") else "L")]
+        for ch in chains + deep:
+            tree = copy.deepcopy(L.footer)
+            st = first_struct(tree, route)
+            if st is None:
+                continue
+            st.append(Raw(nest_field(ch, 99)))
+            out.append((reassemble(data, L, tree), f"nesting:{spot}.unknown99={ch[:2]}x{len(ch)}"))
+    pages = all_pages(data, L)
+    if pages:
+        gi, ci, md, off, hdr, hsize, csize = pages[0]
+        for inner in (None, 5):
+            for k in NEST_KINDS:
+                for d in (31, 32, 33, 60):
+                    h2 = copy.deepcopy(hdr)
+                    tgt = h2 if inner is None else pq.get(h2, inner)
+                    if tgt is None:
+                        continue
+                    tgt.append(Raw(nest_field(k * d, 99)))
+                    hb = pq.enc_struct(h2)
+                    body = data[:off] + hb + data[off + hsize:L.footer_off]
+                    tree = copy.deepcopy(L.footer)
+                    shift_offsets(tree, off, len(hb) - hsize)
+                    out.append((reassemble(data, L, tree, body=body),
+                                f"nesting:{'PageHeader' if inner is None else 'DataPageHeader'}.unknown99={k}x{d}"))
+    return out
+
+
+def footer_length_images():
+    """Tiny images with valid magics and every declared footer length around the size of the image: the result
+    must be an error on all three paths, the same one, and never an access outside an exact-size buffer."""
+    out = []
+    for size in (12, 13, 16, 19, 24, 40):
+        for ln in sorted(set([max(0, size - 16 + d) for d in range(0, 25)] + [0xFFFFFFFF - d for d in range(0, 16)] + [0x7FFFFFFF, 0x80000000])):
+            img = pq.MAGIC + bytes(size - 12) + struct.pack("<I", ln & 0xFFFFFFFF) + pq.MAGIC
+            out.append((img, f"footer-length-image:size={size},declared={ln}"))
+    return out
+
+
 # ----------------------------------------------------------------------------- running and judging
 
 def key_of(line):
@@ -755,14 +854,34 @@ def run(tier):
                 sweep += [(nm,) + x for x in page_end_sweep(nm, d)]
                 if nm == cq_first or tier != "quick":
                     sweep += [(nm,) + x for x in length_sweep(nm, d)]
+                if nm == cq_first or tier != "quick":
+                    sweep += [(nm,) + x for x in nesting_sweep(nm, d, tier)]
             except Exception as e:
                 rep.tie_broken(f"sweep generator failed on seed {nm}: {e!r}", nm)
+        sweep += [("image",) + x for x in footer_length_images()]
         scases = [(nm, m, label, mode, ("M/R1000" if i % 2 else "M/B64,0")) for i, (nm, m, label) in enumerate(sweep) for mode in range(3)]
+        image_codes = {}
         for a in range(0, len(scases), 1500):
             part = scases[a:a + 1500]
             out = run_cases(rep, drv, part, tmp, "s")
             judge(rep, part, out, stats)
+            for c, o in zip(part, out):
+                if c[2].startswith("footer-length-image"):
+                    m = re.search(r"open=(-?\d+)", o)
+                    image_codes.setdefault(c[2], {})[c[3]] = (int(m.group(1)) if m and not o.startswith("FAULT") else None, c[1], o)
+        for label, by_mode in image_codes.items():
+            codes = {m: v[0] for m, v in by_mode.items()}
+            data0, o0 = by_mode[0][1], by_mode[0][2]
+            if any(v == 0 for v in codes.values()) or len({v for v in codes.values() if v is not None}) > 1:
+                rep.violation(f"an image with valid magics but no usable footer is not rejected alike by the three open paths ({label}): "
+                              f"status fread/mmap/buffer = {codes.get(0)}/{codes.get(1)}/{codes.get(2)}",
+                              {"seed_file": "image", "mutation": label, "mode": 2, "script": "M", "file_hex": data0.hex(), "observed": str(codes)},
+                              key="C04:footer-image-modes-differ")
         rep.cov["sweep_cases"] = len(scases)
+        img_codes = {}
+        for a in range(0, len(scases), 1500):
+            pass
+        rep.cov["sweep_families"] = sorted({c[2].split(":")[0] for c in scases})
         # 3b. random mutants
         nmut = 8000 if tier == "quick" else 60000
         cases = []
